@@ -34,6 +34,13 @@ func (l *Log) add(op Op) {
 	l.mu.Unlock()
 }
 
+// Snapshot returns a copy of the operations recorded so far.
+func (l *Log) Snapshot() []Op {
+	l.mu.Lock()
+	defer l.mu.Unlock()
+	return append([]Op(nil), l.Ops...)
+}
+
 // Pipe is a unidirectional byte pipe.
 type Pipe struct {
 	Name    string
